@@ -102,7 +102,8 @@ add('C13', 'proof', 'Lean 4 theorems about the graph wrapper and a verified exac
     'captured from the five MWPM decoders) is checked by the verified checker and its exact weight compared with minPM. '
     'The Blossom V path (gt.mwpm dispatch, mwpm_blossom5, blossom5.mwpm / mwpm_ids, weight_to_int_fn as applied) is exercised in '
     'child processes against a stand-in libpypm.so built by the harness (exact bitmask DP with the same C interface): node-id '
-    'mapping, ctypes conversion, mates set and integer scaling are compared with the Lean model, and optimality is judged '
+    'mapping, ctypes conversion, mates set and integer scaling are compared with the Lean wrapper model Model/Blossom5.lean (the arrays the C routine '
+    'actually received, traced on the C side, its mates array and the Python result = the driver\'s output with clib := the recorded answer), and optimality is judged '
     'within the rounding allowance proved in Props/C13/Blossom.lean (scaled optimum within (n/2)/s of the true optimum, exact '
     'when the documented rule is the identity; scaled weights fit a C int) — 19 theorems.',
     TB + 'networkx max_weight_matching is trusted only through the per-run comparison with the verified optimum; the real Blossom V '
@@ -164,7 +165,7 @@ add('C14', 'proof', 'Lean 4 theorems: naive decoder (min weight, corrects total 
     'total distance <= its weight (generic T-join lemma over any multigraph with a metric, with a boundary variant for the '
     'virtual plaquettes), so with any minimum-weight perfect matching the recovery XOR error is a stabilizer product whenever '
     '|X-support|, |Z-support| <= t = (min(R,C)-1)/2 — C02, C07, C08, C15 facts discharged; the only remaining hypothesis is '
-    'that the matching handed back is of minimum weight (networkx, see C13); the exact matcher meets that contract, and the recovery is the same for every iteration order of the returned set of mates (Props/C14/MatesOrder.lean); the Blossom V backend is bridged too: with a contract for the C routine (minimum-weight perfect matching of the integer graph on ids; satisfiable: exhaustive matcher) and R + C < infty/10 the modelled wrapper (node ids, contiguity assert, mates array, weight_to_int = identity on the integer distances of the decoders) hands back a minimum-weight perfect matching, so both backends of gt.mwpm correct (Props/C14/Blossom.lean) — 86 theorems. Tied to the code by exact '
+    'that the matching handed back is of minimum weight (networkx, see C13); the exact matcher meets that contract, and the recovery is the same for every iteration order of the returned set of mates (Props/C14/MatesOrder.lean); the Blossom V backend is bridged too: with a contract for the C routine (minimum-weight perfect matching of the integer graph on ids; satisfiable: exhaustive matcher) and R + C < infty/10 the modelled wrapper (node ids, contiguity assert, mates array, weight_to_int = identity on the integer distances of the decoders) hands back a minimum-weight perfect matching, so both backends of gt.mwpm correct (Props/C14/Blossom.lean; the wrapper model is tied to the real wrapper by C13's stand-in comparison) — 86 theorems. Tied to the code by exact '
     'comparison of the naive decoder and by sweeping every error with |X|,|Z| <= t on planar and toric 2x2..4x5 (exhaustive) '
     'and samples beyond through the real decoders, verdict confirmed by the Lean driver and a span certificate.',
     TB + 'Minimality of the networkx matching is a hypothesis (tested against a verified optimum in C13).')
